@@ -1,4 +1,6 @@
 """C18 - the indexer's answers equal filtering the chain (structural necessary conditions)."""
+import re
+
 import kinds as K
 
 CRATES = ["ckb_indexer", "ckb_indexer_sync", "ckb_rich_indexer"]
@@ -194,3 +196,25 @@ def run(F, S, R, tier):
         else:
             R.bad("invpair/rich/assoc", "rich-indexer rollback leaves rows in %s" % sorted(assoc - dele), [])
     R.guard("invpair/rich", rich)
+
+    # the key encoder writes every key component whole: prefix byte, big-endian numbers, molecule entities as_slice(), scripts through append_key.
+    # Its callee set is closed; a projection of a component (round-2 seed C18-seed4: `out_point.tx_hash()` for the ConsumedOutPoint key, so that
+    # two outputs of one transaction consumed in one block share a key) is a callee that was never reviewed.
+    def key_encoder():
+        enc = [b for b in F.bodies_of_crate("ckb_indexer") if re.search(r"From<indexer::Key<'a>> for alloc::vec::Vec<u8>>::from$", b.path)]
+        if not enc:
+            R.bad("layout/key-encoder/anchor-lost", "the Key -> bytes encoder not found", [])
+            return
+        b = enc[0]
+        R.fn(b)
+        allowed = re.compile(r"^(alloc::vec::Vec::(extend_from_slice|new|push|with_capacity|reserve)|ckb_indexer::indexer::append_key|core::num::to_be_bytes|molecule::prelude::Entity::as_slice|core::convert::(Into::into|From::from)|core::clone::Clone::clone)$")
+        other = sorted({re.sub(r"<[^<>]*>", "", re.sub(r"<[^<>]*>", "", c.callee)).replace("::::", "::") for x in K.with_nested(b) for c in x.calls} - set())
+        other = [o for o in other if not allowed.match(o)]
+        R.sites += len(b.calls)
+        if other:
+            R.bad("layout/key-encoder", "the key encoder applies %s to a key component: components are written whole (the reviewed callee set is closed)" % other[:3], [b.where()])
+        elif len(b.calls) < 20:
+            R.bad("layout/key-encoder/anchor-lost", "the key encoder has %d calls, about 30 were reviewed" % len(b.calls), [b.where()])
+        else:
+            R.ok("layout/key-encoder", "every key component is written whole (%d calls, all from the reviewed set)" % len(b.calls), [b.where()])
+    R.guard("layout/key-encoder", key_encoder)
